@@ -252,6 +252,7 @@ func vModelBitmapCount(dst bitmap.Bitmap) int {
 //@ model bitmap.(*Bitmap).And
 func vModelBitmapAnd(dst *bitmap.Bitmap, other bitmap.Bitmap, extra ...bitmap.Bitmap) {
 	vAssert("model:and-one-operand", len(extra) == 0)
+	vLastBitOp = 1
 	d := *dst
 	old := append([]uint64(nil), d...)
 	n := len(d)
@@ -271,6 +272,7 @@ func vModelBitmapAnd(dst *bitmap.Bitmap, other bitmap.Bitmap, extra ...bitmap.Bi
 //@ model bitmap.(*Bitmap).AndNot
 func vModelBitmapAndNot(dst *bitmap.Bitmap, other bitmap.Bitmap, extra ...bitmap.Bitmap) {
 	vAssert("model:andnot-one-operand", len(extra) == 0)
+	vLastBitOp = 2
 	d := *dst
 	old := append([]uint64(nil), d...)
 	vHavocRange(d)
@@ -281,6 +283,30 @@ func vModelBitmapAndNot(dst *bitmap.Bitmap, other bitmap.Bitmap, extra ...bitmap
 		return d[i] == old[i]
 	}))
 }
+
+// Or never shortens; words the receiver does not have are not part of the caller's view (the receiver is a window
+// of the selection passed by value), so only the common prefix and the receiver's own tail matter here.
+//
+//@ model bitmap.(*Bitmap).Or
+func vModelBitmapOr(dst *bitmap.Bitmap, other bitmap.Bitmap, extra ...bitmap.Bitmap) {
+	vAssert("model:or-one-operand", len(extra) == 0)
+	vLastBitOp = 3
+	d := *dst
+	old := append([]uint64(nil), d...)
+	vHavocRange(d)
+	vAssume(vForall(0, len(d), func(i int) bool {
+		if i < len(other) {
+			return d[i] == old[i]|other[i]
+		}
+		return d[i] == old[i]
+	}))
+	if len(other) > len(d) {
+		*dst = vNondet[bitmap.Bitmap]() // grown: within the capacity or into fresh storage - unknown to the caller
+	}
+}
+
+// vLastBitOp is ghost: which of And (1), AndNot (2), Or (3) ran last.
+var vLastBitOp uint8
 
 // vNextID is ghost: the process-wide commit id counter (only grows).
 var vNextID uint64
@@ -300,7 +326,16 @@ func vNoLatchWriteHeld() bool {
 // Column methods called through the interface on an unknown implementation.
 //
 //@ model column.Column.Index
-func vModelColumnIndex(c Column, chunk commit.Chunk) bitmap.Bitmap { return vNondet[bitmap.Bitmap]() }
+func vModelColumnIndex(c Column, chunk commit.Chunk) bitmap.Bitmap {
+	vLastIndexChunk, vLastIndexOf = chunk, vNondet[bitmap.Bitmap]()
+	return vLastIndexOf
+}
+
+// ghost: block and result of the last Column.Index call
+var (
+	vLastIndexChunk commit.Chunk
+	vLastIndexOf    bitmap.Bitmap
+)
 
 // bitmap.Max: the largest set bit, or (0, false) for an empty bitmap.
 //
@@ -561,13 +596,17 @@ func vModelBitmapClone(dst bitmap.Bitmap, into *bitmap.Bitmap) bitmap.Bitmap {
 // intmap.Sync as a map from the 32-bit hash to a location (ghost map; one table per contract).
 var vIntmap map[uint32]uint32
 
+var vIntmapLast uint32 // ghost: the location the last LoadOrStore returned
+
 //@ model intmap.(*Sync).LoadOrStore
 func vModelIntmapLoadOrStore(m *intmap.Sync, key uint32, fn func() uint32) (uint32, bool) {
 	if v, ok := vIntmap[key]; ok {
+		vIntmapLast = v
 		return v, true
 	}
 	v := fn()
 	vIntmap[key] = v
+	vIntmapLast = v
 	return v, false
 }
 
@@ -597,4 +636,28 @@ func vModelColumnsLoad(c *columns, name string) (*column, bool) {
 	si, ok := col.Column.(*columnSortIndex)
 	vAssume(ok && si != nil && si.btree != nil)
 	return col, true
+}
+
+// sync.Pool as a ghost bag: Put counts and remembers the item, Get yields an arbitrary non-nil page or transaction
+// (what a pool hands out is either a recycled item or a new one; its contents are unknown either way).
+var (
+	vPoolPuts    int
+	vPoolLastPut any
+)
+
+//@ model sync.(*Pool).Put
+func vModelPoolPut(p *sync.Pool, x any) {
+	vPoolPuts++
+	vPoolLastPut = x
+}
+
+// columns.Range (the registry lives in an atomic.Value): the delegate runs for one arbitrary registered column.
+var vColumnsRangeCalls int
+
+//@ model column.(*columns).Range
+func vModelColumnsRange(c *columns, fn func(column *column)) {
+	col := vNondet[*column]()
+	vAssume(col != nil)
+	vColumnsRangeCalls++
+	fn(col)
 }
